@@ -84,3 +84,8 @@ chk("C18", "exploration",
     "car create / car root / car extract and compared entry by entry.",
     "Model-generated cases, sampled (quick: 15% of 9k cases). Chunking/sharding are go-unixfsnode's. " + TB,
     "TLA+ tree model as case generator and oracle + real CLI round trip", "DESIGN.md §3 C18")
+chk("C19", "exploration",
+    "Cli.tla defines every sub-command as an operator on abstract archives (filter with the store's de-duplication, append, index, list, get-block, concat) with closure predicates; all TLC-enumerated "
+    "archives are run through the built car binary, outputs compared with the reference encoding of the operator's result, and every emitted archive checked with car inspect --full / car verify.",
+    "All sub-commands on all bounded archives; filter flag combinations sampled. " + TB,
+    "TLA+ operators as oracle + real CLI runs with closure under the tool's own verifier", "DESIGN.md §3 C19")
